@@ -81,7 +81,7 @@ def gen_config(rng, kind=None, thorough=False):
         cfg["scale_l2_norm"] = rng.random() < 0.4
     if kind == "gammatone":
         cfg["erb"] = rng.random() < 0.5
-        cfg["order"] = rng.choice([3, 3, 4, 4, 5, 6, 7, 8])
+        cfg["order"] = rng.choice([3, 3, 4, 4, 5, 6, 7, 8, 9, 10, 11])
         cfg["max_centered"] = rng.random() < 0.6
         cfg["scale_l2_norm"] = False  # the property excludes L2 scaling for gammatones
     return cfg
@@ -271,7 +271,17 @@ def run_search(ctx, F, np, eps, n_banks, cap, time_budget, seeds=()):
                      dict(check=name, config=cfg, filt_idx=fi, supports=detail), kind="impl")
             found += 1
         nf = bank.num_filts
-        fis = sorted(set([0, nf - 1, ctx.rng.randrange(nf), ctx.rng.randrange(nf)]))
+        fis = set([0, nf - 1, ctx.rng.randrange(nf), ctx.rng.randrange(nf)])
+        # filters whose left half is wider than the right one (rare: most scales widen with frequency)
+        try:
+            cen, shz = bank.centers_hz, bank.supports_hz
+            odd = [j for j in range(nf) if (cen[j] - shz[j][0]) > (shz[j][1] - cen[j]) * (1 + 1e-9)]
+            for j in ctx.rng.sample(odd, min(2, len(odd))):
+                fis.add(j)
+                ctx.count("search:left-half-wider-filter")
+        except Exception:  # noqa: BLE001
+            pass
+        fis = sorted(fis)
         for fi in fis:
             ws, skipped = widths_for(ctx.rng, bank, fi, cap)
             if skipped:
@@ -816,6 +826,16 @@ TARGETED = [
 ] + [
     dict(kind=k, rate=8000, num_filts=11, low_hz=lo, high_hz=None, scale=dict(name="mel"), analytic=a)
     for k, lo in (("tri", 5.0), ("fbank", 0.0)) for a in (False, True)
+] + [
+    # triangular filters whose LEFT half is the wider one (a finely sampled Bark scale around its piecewise corrections,
+    # a linear scale): the two branches of the impulse-response formula
+    dict(kind="tri", rate=r, num_filts=n, low_hz=0.0, high_hz=None, scale=dict(name="bark"), analytic=a)
+    for r, n in ((8000, 23), (16000, 40)) for a in (False, True)
+] + [
+    # long, narrow, high-order causal gammatones (sample indices beyond 2^(63/(order-1)))
+    dict(kind="gammatone", rate=r, num_filts=n, low_hz=20.0, high_hz=None, scale=dict(name="mel"), erb=False, order=o,
+         max_centered=False, scale_l2_norm=False)
+    for r, n, o in ((16000, 40, 9), (16000, 40, 10), (8000, 11, 11), (16000, 64, 8))
 ]
 
 
